@@ -1,5 +1,5 @@
 """Replay driver for C06."""
-import signal
+import multiprocessing as mp
 
 import numpy as np
 
@@ -7,23 +7,23 @@ from .util import unfrac
 from . import ssa
 
 
-class _Timeout(Exception):
-    pass
-
-
-def _alarm(*a):
-    raise _Timeout()
+def _run(q, rx, init, species, use_delay, vol, seed):
+    import warnings
+    warnings.simplefilter("ignore")
+    from bioscrape.types import Model
+    from bioscrape.simulator import py_simulate_model
+    from bioscrape.random import py_seed_random
+    tp = np.linspace(0, 5, 11)
+    M = Model(species=species, reactions=[rx], initial_condition_dict=init)
+    py_seed_random(seed)
+    df = py_simulate_model(tp, Model=M, stochastic=True, delay=use_delay, volume=vol)
+    q.put(df[species].to_numpy().min(axis=0).tolist())
 
 
 def replay(spec):
     kind = spec.get("kind")
     if kind in ("ssa", "delay", "volume", "delay_volume"):
         return ssa.replay(spec)
-    import warnings
-    warnings.simplefilter("ignore")
-    from bioscrape.types import Model
-    from bioscrape.simulator import py_simulate_model
-    from bioscrape.random import py_seed_random
     v = unfrac(spec["values"])
     species = ["A", "B", "C"]
     k = max(float(v["k"]), 2.0)      # the rate constant is free (> 0): use one at which reactions actually fire
@@ -32,26 +32,25 @@ def replay(spec):
         rx = (spec["reactants"], spec["products"], "massaction", {"k": k}, "fixed", spec["dre"], spec["dpr"], {"delay": 0.5})
     else:
         rx = (spec["reactants"], spec["products"], "massaction", {"k": k})
-    tp = np.linspace(0, 5, 11)
     use_delay = spec.get("sim") == "delay"
     vol = 1.0 if spec.get("mode") == "stochastic_volume" else False
-    signal.signal(signal.SIGALRM, _alarm)
-    for seed in range(1, 30):
-        M = Model(species=species, reactions=[rx], initial_condition_dict=init)
-        py_seed_random(seed)
-        signal.alarm(8)
-        try:
-            if use_delay and vol:
-                continue
-            df = py_simulate_model(tp, Model=M, stochastic=True, delay=use_delay, volume=vol)
-            signal.alarm(0)
-        except _Timeout:
-            return {"reproduced": True, "observed": "simulation of %r from %r did not return within 8 s (seed %d)" % (rx, init, seed),
+    ctx = mp.get_context("fork")
+    for seed in range(1, 9):
+        q = ctx.Queue()
+        p = ctx.Process(target=_run, args=(q, rx, init, species, use_delay, vol, seed))
+        p.start()
+        p.join(6)
+        if p.is_alive():
+            p.kill()
+            p.join()
+            return {"reproduced": True, "observed": "simulation of %r from %r did not return within 6 s (seed %d); the number of "
+                                                    "possible firings is bounded" % (rx, init, seed),
                     "expected": "a trajectory with non-negative counts"}
-        finally:
-            signal.alarm(0)
-        arr = df[species].to_numpy()
-        if (arr < 0).any():
-            return {"reproduced": True, "observed": "negative count in trajectory (seed %d): %s" % (seed, arr.min(axis=0).tolist()),
+        if p.exitcode != 0:
+            return {"reproduced": True, "observed": "simulation of %r from %r died with exit code %s (seed %d)" % (rx, init, p.exitcode, seed),
+                    "expected": "a trajectory with non-negative counts"}
+        mins = q.get()
+        if min(mins) < 0:
+            return {"reproduced": True, "observed": "negative count in trajectory (seed %d): minima %s" % (seed, mins),
                     "expected": "non-negative counts"}
-    return {"reproduced": False, "observed": "no negative count in 29 seeds", "expected": "non-negative counts"}
+    return {"reproduced": False, "observed": "no negative count in 8 seeds", "expected": "non-negative counts"}
